@@ -730,12 +730,12 @@ func InfixArgsToArray(name string, args []Sexp) (*SexpArray, bool, error) {
 				return nil, false, fmt.Errorf("infixExpand expects (infix []) as its argument; instead we saw '%T'", v.Tail)
 			}
 		}
-		return nil, false, fmt.Errorf("InfixBuilder must receive an SexpArray. Saw: name='%v' / args[0]='%#v'", name, args[0])
+		return nil, false, fmt.Errorf("InfixBuilder must receive an SexpArray. Saw: name='%v' / args[0]='%s'", name, showForError(args[0]))
 	case *SexpHash:
 		// an empty basic block {} that turned into an empty hash.
 		return nil, true, nil
 	default:
-		return nil, false, fmt.Errorf("InfixBuilder (default) must receive an SexpArray. Saw: name='%v' / args[0]='%#v'", name, args[0])
+		return nil, false, fmt.Errorf("InfixBuilder (default) must receive an SexpArray. Saw: name='%v' / args[0]='%s'", name, showForError(args[0]))
 	}
 	return arr, false, nil
 }
